@@ -2,6 +2,15 @@
 """Generate MANIFEST.json from the table below (single source of truth)."""
 import json, subprocess
 CHECKS = {
+ "C14": ("exploration", "history monitor: random Muxer call sequences checked against a model of what was put in, an independent RIFF walker, the Demuxer, the second parser and libwebp",
+         "Each accepted history's output is demuxed and compared field by field with the history (payload bytes, alpha, offsets/2*2, clamped durations, blend/dispose, loop, background, canvas, metadata); rejected histories must write nothing.",
+         "Model of accepted input: durations clamped to [0,2^24-1], loop count to [0,65535], animated iff >1 frame or a positive duration. D11 (still with canvas != image) is a recorded known finding.", "3/C14"),
+ "C16": ("exploration", "cross-view agreement monitor (Decode result as oracle for the header queries; five container views compared pairwise)",
+         "For every still that Decode accepts the header queries must succeed and match the decoded image; GetFeatures, DecodeConfig, Demuxer, animation reader and the independent walker must agree on canvas, animation flag, frame count, loop count.",
+         "Hand-assembled variants that the strict walker flags are only compared among the views that accept them.", "3/C16"),
+ "C17": ("fault_enumeration", "exhaustive truncation monitor: every prefix of every corpus file through Decode/DecodeConfig/GetFeatures",
+         "Every cut point 0..len-1 of each file in a diverse corpus of valid stills is enumerated (exhaustive per file); a prefix result must be an error or equal the complete file's.",
+         "Corpus files are small (<= 64 px) so that len(F) decodes per file stay cheap; thorough adds larger files with all cuts in the last 4 KiB and every 97th elsewhere.", "3/C17"),
  "C05": ("exploration", "hostile-input monitor in supervised child processes (recover/fatal/watchdog/alloc accounting/result well-formedness)",
          "Structure-aware mutation and hand-made declaration bombs against every decoding entry point; each child logs the case before executing it, runs under ulimit -v, and measures TotalAlloc against a bound linear in input length and declared pixel area; hangs are judged only after three isolated re-runs.",
          "Declared area comes from an over-approximating scanner; inputs whose declared-size bound exceeds 1.5 GiB are not executed (counted as inconclusive).", "3/C05"),
